@@ -38,20 +38,17 @@ Proof.
 Qed.
 
 (** [add_column(col)] for a fresh column object [c] (not listed, no neighbour, no connection, layer count 0)
-    whose nodes are distinct nodes of the geometry; when it is really added (its name is free) the
-    geometry has no layer yet *)
-Lemma add_column_obj_inv g c : Inv g -> ~ In c (clist g) -> (c < next g)%positive ->
-  cnb g c = [] -> cks g c = [] -> cl g c = 0%Z ->
+    whose nodes are distinct nodes of the geometry *)
+Lemma add_column_obj_invS g c : InvS g -> ~ In c (clist g) -> (c < next g)%positive -> cks g c = [] ->
   (forall n, In n (cns g c) -> In n (nlist g)) -> NoDup (cns g c) -> (3 <= length (cns g c))%nat ->
-  (cget g (cn g c) = None -> llist g = []) ->
-  Inv (add_column_obj g c).
+  InvS (add_column_obj g c).
 Proof.
-  intros I Hc Hlt Hnb Hks Hcl Hns Hnd Hlen Hlay. unfold add_column_obj. destruct (cget g (cn g c)) eqn:E; [exact I|].
-  specialize (Hlay eq_refl). rewrite fold_ncol_add. gs.
-  destruct I as [[F P1 P1k P2 P3 P4 P5] [D1 D2 D3]].
+  intros I Hc Hlt Hks Hns Hnd Hlen. unfold add_column_obj. destruct (cget g (cn g c)) eqn:E; [exact I|].
+  rewrite fold_ncol_add. gs.
+  destruct I as [F P1 P1k P2 P3 P4 P5].
   assert (Hk : forall k, In k (klist g) -> k0 g k <> c /\ k1 g k <> c).
   { intros k Hk. destruct (s3_ends g P3 k Hk) as [A B]. split; intros X; rewrite X in *; contradiction. }
-  constructor; constructor.
+  constructor.
   - destruct F as [F1 [F2 [F3 [F4 F5]]]]. unfold Fr. gs. repeat split; try assumption.
     intros x Hx. apply in_snoc in Hx. destruct Hx as [Hx| ->]; auto.
   - destruct P1 as [Dn [Dc [Dl Dw]]]. split; [|split; [|split]]; try assumption.
@@ -76,6 +73,17 @@ Proof.
       rewrite Hks. split; [intros []|]. intros [A B]. destruct (Hk k A). destruct B; contradiction.
   - exact P4.
   - intros c' Hc'. gsu. apply in_snoc in Hc'. destruct Hc' as [Hc'| ->]; [exact (P5 c' Hc')|auto].
+Qed.
+(** the derived data is kept when the new column has no neighbour, layer count 0 and the geometry no layer yet *)
+Lemma add_column_obj_invD g c : Inv g -> ~ In c (clist g) -> cnb g c = [] -> cl g c = 0%Z ->
+  (cget g (cn g c) = None -> llist g = []) -> InvD (add_column_obj g c).
+Proof.
+  intros I Hc Hnb Hcl Hlay. unfold add_column_obj. destruct (cget g (cn g c)) eqn:E; [exact (i_d g I)|].
+  specialize (Hlay eq_refl). rewrite fold_ncol_add. gs.
+  destruct I as [[F P1 P1k P2 P3 P4 P5] [D1 D2 D3]].
+  assert (Hk : forall k, In k (klist g) -> k0 g k <> c /\ k1 g k <> c).
+  { intros k Hk. destruct (s3_ends g P3 k Hk) as [A B]. split; intros X; rewrite X in *; contradiction. }
+  constructor.
   - destruct D1 as [Q1 Q2]. unfold S3b. gsu. split.
     + intros c' Hc'. apply in_snoc in Hc'. destruct Hc' as [Hc'| ->]; [exact (Q1 c' Hc')|]. rewrite Hnb. constructor.
     + intros c' Hc' d. apply in_snoc in Hc'. destruct Hc' as [Hc'| ->]; [exact (Q2 c' Hc' d)|].
@@ -98,34 +106,46 @@ Qed.
 
 (** distinct names: the nodes given to the column constructor are distinct objects *)
 Definition col_args_ok (g : geo) (name : str) (names : list str) : Prop :=
-  cget g name = None -> NoDup names /\ (3 <= length names)%nat /\ llist g = [].
+  cget g name = None -> NoDup names /\ (3 <= length names)%nat.
+Definition col_derived_ok (g : geo) (name : str) : Prop := cget g name = None -> llist g = [].
 
-Theorem add_column_inv g name names ce surf g' : Inv g -> col_args_ok g name names ->
-  add_column g name names ce surf = Ok g' -> Inv g'.
+Lemma new_col_facts g name ns ce surf : let g1 := new_col g name ns ce surf in
+  cns g1 (next g) = (if qltb (qpoly_area (poly g ns)) 0 then rev ns else ns) /\ cn g1 (next g) = name /\
+  cnb g1 (next g) = [] /\ cks g1 (next g) = [] /\ cl g1 (next g) = 0%Z.
+Proof. cbn zeta. unfold new_col. gsu. rewrite !fget_fset_eq. auto. Qed.
+
+Theorem add_column_invS g name names ce surf g' : InvS g -> col_args_ok g name names ->
+  add_column g name names ce surf = Ok g' -> InvS g'.
 Proof.
   intros I A H. unfold add_column in H. destruct (lookup_nodes g names) as [ns|] eqn:E; cbn [bind] in H; [|discriminate].
-  inversion H; subst g'; clear H. pose proof (i_fr g (i_s g I)) as F.
-  destruct (lookup_nodes_ok g names ns (i_s1 g (i_s g I)) E) as [Hin Hnm].
-  set (g1 := new_col g name ns ce surf).
-  assert (A1 : agree g g1) by (apply agree_new_col; exact F).
-  assert (I1 : Inv g1) by (apply (agree_Inv g); assumption).
-  assert (Ecns : cns g1 (next g) = if qltb (qpoly_area (poly g ns)) 0 then rev ns else ns).
-  { unfold g1, new_col. gsu. apply fget_fset_eq. }
-  assert (Ecn : cn g1 (next g) = name) by (unfold g1, new_col; gsu; apply fget_fset_eq).
+  inversion H; subst g'; clear H. pose proof (i_fr g I) as F.
+  destruct (lookup_nodes_ok g names ns (i_s1 g I) E) as [Hin Hnm].
+  destruct (new_col_facts g name ns ce surf) as [Ecns [Ecn [Enb [Eks Ecl]]]].
+  set (g1 := new_col g name ns ce surf) in *.
+  assert (I1 : InvS g1) by (apply (agree_InvS g); [apply agree_new_col; exact F|exact I]).
   assert (Hmem : forall n, In n (cns g1 (next g)) <-> In n ns).
   { intro n. rewrite Ecns. destruct (qltb _ _); [symmetry; apply in_rev|reflexivity]. }
   destruct (cget g name) as [old|] eqn:X.
   { unfold add_column_obj. rewrite Ecn. change (cget g1 name) with (cget g name). rewrite X. exact I1. }
-  destruct (A X) as [ND [L Lay]].
+  destruct (A X) as [ND L].
   assert (NDn : NoDup ns) by (rewrite <- Hnm in ND; apply NoDup_map_inv in ND; exact ND).
-  apply add_column_obj_inv; try assumption.
+  apply add_column_obj_invS; try assumption.
   - intro Y. change (In (next g) (clist g)) in Y. apply (fr_c g F) in Y. lia.
   - cbn. lia.
-  - unfold g1, new_col. gsu. apply fget_fset_eq.
-  - unfold g1, new_col. gsu. apply fget_fset_eq.
-  - unfold g1, new_col. gsu. apply fget_fset_eq.
   - intros n Hn. apply Hmem in Hn. exact (Hin n Hn).
   - rewrite Ecns. destruct (qltb _ _); [apply NoDup_rev|]; exact NDn.
   - rewrite Ecns. rewrite <- Hnm, map_length in L. destruct (qltb _ _); [rewrite rev_length|]; exact L.
-  - intros _. exact Lay.
+Qed.
+Theorem add_column_inv g name names ce surf g' : Inv g -> col_args_ok g name names -> col_derived_ok g name ->
+  add_column g name names ce surf = Ok g' -> Inv g'.
+Proof.
+  intros I A D H. constructor; [eapply add_column_invS; [apply I|exact A|exact H]|].
+  unfold add_column in H. destruct (lookup_nodes g names) as [ns|] eqn:E; cbn [bind] in H; [|discriminate].
+  inversion H; subst g'; clear H. pose proof (i_fr g (i_s g I)) as F.
+  destruct (new_col_facts g name ns ce surf) as [Ecns [Ecn [Enb [Eks Ecl]]]].
+  set (g1 := new_col g name ns ce surf) in *.
+  assert (I1 : Inv g1) by (apply (agree_Inv g); [apply agree_new_col; exact F|exact I]).
+  apply add_column_obj_invD; try assumption.
+  - intro Y. change (In (next g) (clist g)) in Y. apply (fr_c g F) in Y. lia.
+  - rewrite Ecn. intro X. apply D. exact X.
 Qed.
